@@ -43,11 +43,11 @@ type SelArm struct {
 }
 
 type Step struct {
-	Kind  Kind
-	Instr ssa.Instruction
-	Fn    *ssa.Function // function containing Instr
-	Depth int           // inline depth (0 = root)
-	InDefer bool        // executed while running deferred calls
+	Kind    Kind
+	Instr   ssa.Instruction
+	Fn      *ssa.Function // function containing Instr
+	Depth   int           // inline depth (0 = root)
+	InDefer bool          // executed while running deferred calls
 
 	// operands; meaning by kind:
 	//  send: A[0]=chan A[1]=value        recv: A[0]=chan, R=result (tuple if CommaOk)
@@ -159,11 +159,11 @@ func (s Step) String() string {
 // State
 
 type deferRec struct {
-	instr  *ssa.Defer
-	callee *Term // closure/fn term or nil
-	static *ssa.Function
-	method *types.Func
-	args   []*Term
+	instr   *ssa.Defer
+	callee  *Term // closure/fn term or nil
+	static  *ssa.Function
+	method  *types.Func
+	args    []*Term
 	builtin string
 }
 
@@ -236,6 +236,14 @@ func (s *State) Clone() *State {
 		n.frames = append(n.frames, &nf)
 	}
 	return n
+}
+
+// Reg returns the term bound to an SSA value in the root frame (nil if none).
+func (s *State) Reg(v ssa.Value) *Term {
+	if s == nil || len(s.frames) == 0 {
+		return nil
+	}
+	return s.frames[0].env[v]
 }
 
 func (s *State) top() *frame { return s.frames[len(s.frames)-1] }
